@@ -141,16 +141,19 @@ def R.queue (r : R) : List Item :=
 
 def R.head (r : R) : Option Item := r.queue.head?
 
-def R.resetTimer (r : R) : R :=
-  match r.timer with
+/-- the timer after `resetTimer`, given the current timer and the queue head -/
+def newTimer (t : Timer) (head : Option Item) : Timer :=
+  match t with
   | .none | .fired | .stopped =>
-    match r.head with
-    | none => { r with timer := .none }
-    | some h => { r with timer := .armed h.retryAt }
+    match head with
+    | none => .none
+    | some h => .armed h.retryAt
   | .armed _ =>
-    match r.head with
-    | some h => { r with timer := .armed h.retryAt }
-    | none => { r with timer := .stopped }
+    match head with
+    | some h => .armed h.retryAt
+    | none => .stopped
+
+def R.resetTimer (r : R) : R := { r with timer := newTimer r.timer r.head }
 
 /-- retries.Add -/
 def R.retryAdd (r : R) (obj : RObj) (rev origRev : Nat) (del : Bool) : R :=
@@ -158,8 +161,8 @@ def R.retryAdd (r : R) (obj : RObj) (rev origRev : Nat) (del : Bool) : R :=
   let n := (match old with | some i => i.numRetries | none => 0) + 1
   let it : Item := { id := obj.id, obj, rev, origRev, delete := del, retryAt := r.now + backoff r.cfg.minB r.cfg.maxB n,
                      numRetries := n, inQueue := true, inRevQueue := true }
-  let r := { r with items := r.items.filter (·.id ≠ obj.id) ++ [it] }
-  if (r.head.map (·.id)) = some obj.id then r.resetTimer else r
+  let r' : R := { r with items := r.items.filter (·.id ≠ obj.id) ++ [it] }
+  { r' with timer := if (r'.head.map (·.id)) = some obj.id then newTimer r'.timer r'.head else r'.timer }
 
 /-- retries.Clear -/
 def R.retryClear (r : R) (id : Nat) : R :=
@@ -167,16 +170,16 @@ def R.retryClear (r : R) (id : Nat) : R :=
   | none => r
   | some it =>
     let wasHead := it.inQueue ∧ (r.head.map (·.id)) = some id
-    let r := { r with items := r.items.filter (·.id ≠ id) }
-    if wasHead then r.resetTimer else r
+    let r' : R := { r with items := r.items.filter (·.id ≠ id) }
+    { r' with timer := if wasHead then newTimer r'.timer r'.head else r'.timer }
 
 /-- retries.Pop: out of the time queue, still in the map -/
 def R.retryPop (r : R) : R :=
   match r.head with
   | none => r
   | some h =>
-    let items := r.items.map fun (i : Item) => if i.id = h.id then { i with inQueue := false } else i
-    R.resetTimer { r with items }
+    let r' : R := { r with items := r.items.map fun (i : Item) => if i.id = h.id then { i with inQueue := false } else i }
+    { r' with timer := newTimer r'.timer r'.head }
 
 /-- retries.LowWatermark -/
 def R.lowWatermark (r : R) : Nat :=
@@ -203,24 +206,27 @@ def R.processSingle (r : R) (obj : RObj) (rev : Nat) (del : Bool) : R :=
     let r : R := { r with results := r.results ++ [(obj, obj, rev, obj.sid, failed)] }
     if failed then r else r.retryClear obj.id
 
+/-- one entry of commitStatus: `res` = (clone passed to Update, original, revision
+    it was read at, pending id it carried, failed?) -/
+def R.commitOne (r : R) (res : RObj × RObj × Nat × Nat × Bool) : R :=
+  let (obj, orig, rev, sid, failed) := res
+  let kind := if failed then SKind.error else SKind.done
+  match r.get obj.id with
+  | none => r                                   -- ErrObjectNotFound: dropped
+  | some cur =>
+    if cur.rev = rev then
+      let r := { (r.setObj { obj with kind, sid := r.nextSid }) with nextSid := r.nextSid + 1 }
+      if failed then r.retryAdd orig r.tableRev rev false else r
+    else if cur.kind = .pending ∧ cur.sid = sid then
+      -- only the status changed meanwhile: write onto the current object; a retry
+      -- starts from the current object too
+      let r := { (r.setObj { cur with kind, sid := r.nextSid }) with nextSid := r.nextSid + 1 }
+      if failed then r.retryAdd cur r.tableRev rev false else r
+    else r
+
 /-- commitStatus (results in the order they were produced) -/
 def R.commitStatus (r : R) : R :=
-  let r := r.results.foldl (fun r (res : RObj × RObj × Nat × Nat × Bool) =>
-    let (obj, orig, rev, sid, failed) := res
-    let kind := if failed then SKind.error else SKind.done
-    match r.get obj.id with
-    | none => r                                   -- ErrObjectNotFound: dropped
-    | some cur =>
-      if cur.rev = rev then
-        let r := { (r.setObj { obj with kind, sid := r.nextSid }) with nextSid := r.nextSid + 1 }
-        if failed then r.retryAdd orig r.tableRev rev false else r
-      else if cur.kind = .pending ∧ cur.sid = sid then
-        -- only the status changed meanwhile: write onto the current object; a retry
-        -- starts from the current object too
-        let r := { (r.setObj { cur with kind, sid := r.nextSid }) with nextSid := r.nextSid + 1 }
-        if failed then r.retryAdd cur r.tableRev rev false else r
-      else r) r
-  { r with results := [] }
+  { (r.results.foldl R.commitOne r) with results := [] }
 
 def mergeCh : List Change → List Change → List Change
   | [], r => r
